@@ -1809,3 +1809,90 @@ func ruleSliceEmptiness(c *Ctx, r *Report, floor int) {
 		})
 	}
 }
+
+// ---- R-SCHEMATREE-KEY (C26) -----------------------------------------------------------------------
+
+// ruleSchemaTreeKey: yangschema's leaf tree is written by schemaTreeChildrenAdd/BuildTree and read
+// by ResolveLeafrefTarget with a key computed by fixSchemaTreePath. XPATH paths of leafref
+// statements never name choice or case nodes, so both sides must use choice/case-free paths.
+func ruleSchemaTreeKey(c *Ctx, r *Report) {
+	r.Rule("R-SCHEMATREE-KEY", "yangschema registers every leaf under the same kind of path it later looks leafref targets up by: the key of each Tree.Add below the module level and the caller path in fixSchemaTreePath both come from the choice/case-free path functions (util.SchemaTreePath family), never from yang.Entry.Path(), which names choice and case nodes that XPATH paths omit", 2)
+	yangEntryPath := "github.com/openconfig/goyang/pkg/yang.Entry.Path"
+	choiceFree := map[string]bool{P("util") + ".SchemaTreePath": true, P("util") + ".SchemaPathNoChoiceCase": true, P("util") + ".SchemaTreePathNoModule": true, P("util") + ".SchemaEntryPathNoChoiceCase": true}
+	// pathSources: the path functions whose result reaches expression e through local definitions.
+	var pathSources func(f *FuncInfo, e ast.Expr, depth int, out map[string]bool)
+	pathSources = func(f *FuncInfo, e ast.Expr, depth int, out map[string]bool) {
+		info := f.Info()
+		if depth > 4 {
+			return
+		}
+		ast.Inspect(e, func(n ast.Node) bool {
+			switch x := n.(type) {
+			case *ast.CallExpr:
+				fn := FullName(Callee(info, x))
+				if fn == yangEntryPath || choiceFree[fn] {
+					out[fn] = true
+				}
+			case *ast.Ident:
+				if v, ok := info.ObjectOf(x).(*types.Var); ok && paramIndex(f, v) < 0 {
+					for _, d := range allDefs(f, v) {
+						pathSources(f, d, depth+1, out)
+					}
+				}
+			}
+			return true
+		})
+	}
+	if f := c.MustFunc(r, "yangschema", "schemaTreeChildrenAdd"); f != nil {
+		info := f.Info()
+		n := 0
+		ast.Inspect(f.Decl.Body, func(x ast.Node) bool {
+			call, ok := x.(*ast.CallExpr)
+			if !ok || len(call.Args) != 2 {
+				return true
+			}
+			if fn := FullName(Callee(info, call)); !strings.HasSuffix(fn, "ctree.Tree.Add") {
+				return true
+			}
+			n++
+			src := map[string]bool{}
+			pathSources(f, call.Args[0], 0, src)
+			var bad, good []string
+			for fn := range src {
+				if choiceFree[fn] {
+					good = append(good, short(fn))
+				} else {
+					bad = append(bad, short(fn))
+				}
+			}
+			sort.Strings(good)
+			sort.Strings(bad)
+			r.Check(len(bad) == 0 && len(good) > 0, fmt.Sprintf("yangschema.schemaTreeChildrenAdd:Add#%d:key", n), c.Pos(call.Pos()), "key from "+strings.Join(good, ", "),
+				fmt.Sprintf("schemaTreeChildrenAdd registers leaves under a key built from %s: for a leaf below a choice/case the key contains the choice and case names, while ResolveLeafrefTarget looks the leaf up by its XPATH path without them — code generation fails (\"could not resolve leafref path\") for every leafref whose target lies under a choice", strings.Join(append(bad, good...), ", ")))
+			return true
+		})
+		if n == 0 {
+			r.Und("yangschema.schemaTreeChildrenAdd:Add", c.Pos(f.Decl.Pos()), "no Tree.Add call found: re-confirm how the leaf tree is built")
+		}
+	}
+	if f := c.MustFunc(r, "yangschema", "fixSchemaTreePath"); f != nil {
+		src := map[string]bool{}
+		for _, rs := range returnsOf(f.Decl.Body) {
+			if len(rs.Results) == 2 && !isNilConst(f.Info(), rs.Results[0]) {
+				pathSources(f, rs.Results[0], 0, src)
+			}
+		}
+		var bad, good []string
+		for fn := range src {
+			if choiceFree[fn] {
+				good = append(good, short(fn))
+			} else {
+				bad = append(bad, short(fn))
+			}
+		}
+		sort.Strings(good)
+		sort.Strings(bad)
+		r.Check(len(bad) == 0 && len(good) > 0, "yangschema.fixSchemaTreePath:caller-path", c.Pos(f.Decl.Pos()), "relative paths are resolved against "+strings.Join(good, ", "),
+			"fixSchemaTreePath resolves relative leafref paths against "+strings.Join(append(bad, good...), ", ")+": with choice/case names in the caller's path every `..` climbs a choice or case instead of a data node")
+	}
+}
